@@ -83,6 +83,12 @@ func LoadEngine(repo string, verifDir string) (*Engine, error) {
 			}
 		}
 	}
+	// instances of the module's generic functions that the program uses (verifiable like any other function)
+	for f := range ssautil.AllFunctions(prog) {
+		if f.Origin() != nil && f.Origin().Pkg != nil && strings.HasPrefix(f.Origin().Pkg.Pkg.Path(), e.modPath) {
+			e.indexFunc(f)
+		}
+	}
 	// type census for the standalone-allocation invariant
 	for _, p := range e.allTypesPkgs() {
 		sc := p.Scope()
@@ -258,11 +264,12 @@ func (e *Engine) typesPkg(path string) *types.Package {
 
 // typesInfo returns the go/types info of the package that declares fn.
 func (e *Engine) typesInfo(fn *ssa.Function) *types.Info {
-	if fn.Pkg == nil {
+	tp := fnTypesPkg(fn)
+	if tp == nil {
 		return nil
 	}
 	for _, p := range e.pkgs {
-		if p.Types == fn.Pkg.Pkg {
+		if p.Types == tp {
 			return p.TypesInfo
 		}
 	}
@@ -731,4 +738,22 @@ func (e *Engine) initOnlyGlobal(g *ssa.Global) bool {
 		}
 	}
 	return e.initOnly[g]
+}
+
+
+// fnTypesPkg: the go/types package that declares fn (instances of generics have no ssa package of their own).
+func fnTypesPkg(fn *ssa.Function) *types.Package {
+	if fn.Pkg != nil {
+		return fn.Pkg.Pkg
+	}
+	if o := fn.Origin(); o != nil && o.Pkg != nil {
+		return o.Pkg.Pkg
+	}
+	if fn.Object() != nil {
+		return fn.Object().Pkg()
+	}
+	if fn.Parent() != nil {
+		return fnTypesPkg(fn.Parent())
+	}
+	return nil
 }
